@@ -83,10 +83,13 @@ InitSilent ==
 \* init logs an event just after the operation; when it is killed (Destroy, killinit) the last events
 \* of steps that did happen can be missing: once its log is exhausted its steps are unlogged
 InitTail == lc > Len(C) /\ Sil /\ (ContLoopNext \/ ContSrvNext)
+\* the same for the host when it is SIGKILLed (C16): steps it took just before the crash may have lost
+\* their event, so in front of the `crash` event its loop steps may be unlogged
+HostTail == lh <= Len(H) /\ H[lh].side = "harness" /\ H[lh].ev = "crash" /\ Sil /\ HostLoopNext
 \* the program's own exit is not logged
 EnvSilent == Sil /\ (ChildExit \/ (dz /\ DestroyClose) \/ (kz /\ InitDies) \/ Pdeathsig)
 
-TNext == HostEvents \/ HostSilent \/ InitEvents \/ InitSilent \/ InitTail \/ EnvSilent
+TNext == HostEvents \/ HostSilent \/ HostTail \/ InitEvents \/ InitSilent \/ InitTail \/ EnvSilent
 TSpec == TInit /\ [][TNext]_tvars
 
 AtEnd == lh > Len(H) /\ lc > Len(C)
